@@ -1581,6 +1581,31 @@ SoPlexBase<R>& SoPlexBase<R>::operator=(const SoPlexBase<R>& rhs)
          _rationalLUSolverBind = rhs._rationalLUSolverBind;
       }
 
+      // the copied LPs and scalers still refer to the scaler objects / exponent arrays embedded in rhs
+      {
+         auto own = [&](SPxScaler<R>* p) -> SPxScaler<R>*
+         {
+            if(p == &rhs._scalerUniequi) return &_scalerUniequi;
+            if(p == &rhs._scalerBiequi) return &_scalerBiequi;
+            if(p == &rhs._scalerGeo1) return &_scalerGeo1;
+            if(p == &rhs._scalerGeo8) return &_scalerGeo8;
+            if(p == &rhs._scalerGeoequi) return &_scalerGeoequi;
+            if(p == &rhs._scalerLeastsq) return &_scalerLeastsq;
+            return nullptr;
+         };
+         _solver.setLpScaler(own(rhs._solver.lpScaler()));
+
+         if(_realLP != &_solver)
+            _realLP->setLpScaler(own(rhs._realLP->lpScaler()));
+
+         if(_realLP->lpScaler() != nullptr)
+            _realLP->lpScaler()->setActiveLP(*_realLP);
+
+         // the scaler pointer may have been switched off transiently by the last solve of rhs
+         if(rhs._scaler == nullptr)
+            _scaler = nullptr;
+      }
+
       // copy boolean flags
       _isRealLPLoaded = rhs._isRealLPLoaded;
       _isRealLPScaled = rhs._isRealLPScaled;
